@@ -3,6 +3,8 @@
 package main
 
 import (
+	"os"
+	"path/filepath"
 	"github.com/DemoHn/Zn/pkg/common"
 	"bytes"
 	"encoding/json"
@@ -68,7 +70,45 @@ func runOne(z *exec.Interpreter, src string) map[string]interface{} {
 	return outcome(elem, err, disp)
 }
 
+// {"steps":[{"write":{"rel/path.zn":"text",...}} | {"run":"rel/main.zn"}], "shared":bool}: file-based executions (LoadFile, imports
+// of module files next to the main file) in one process; files may change between executions. Returns the outcome of every run step.
+func fileSeq(in map[string]interface{}) map[string]interface{} {
+	dir, err := os.MkdirTemp("", "znc16-")
+	if err != nil {
+		return map[string]interface{}{"error": err.Error()}
+	}
+	defer os.RemoveAll(dir)
+	shared, _ := in["shared"].(bool)
+	z := exec.NewInterpreter("verif").SetExternalLibs(libs())
+	outs := []interface{}{}
+	for _, st := range in["steps"].([]interface{}) {
+		step := st.(map[string]interface{})
+		if w, ok := step["write"].(map[string]interface{}); ok {
+			for rel, txt := range w {
+				full := filepath.Join(dir, rel)
+				os.MkdirAll(filepath.Dir(full), 0o755)
+				os.WriteFile(full, []byte(txt.(string)), 0o644)
+			}
+			continue
+		}
+		zi := z
+		if !shared {
+			zi = exec.NewInterpreter("verif").SetExternalLibs(libs())
+		}
+		var elem r.Element
+		var rerr error
+		disp := hlib.CaptureStdout(func() { elem, rerr = zi.LoadFile(filepath.Join(dir, step["run"].(string))).Execute(r.ElementMap{}) })
+		o := outcome(elem, rerr, disp)
+		if e, ok := o["err"].(map[string]interface{}); ok {
+			delete(e, "display") // quotes absolute paths of the scratch directory
+		}
+		outs = append(outs, o)
+	}
+	return map[string]interface{}{"outs": outs}
+}
+
 func register() {
+	commands["fileseq"] = fileSeq
 	// {"progs":[src...], "shared":bool}: run the programs one after the other in this process, through one
 	// interpreter object (shared) or a new one each; returns every outcome
 	commands["seq"] = func(in map[string]interface{}) map[string]interface{} {
